@@ -188,7 +188,7 @@ func Canonicalize(pkgs []*packages.Package, reload func(map[string][]byte) ([]*p
 	// stage 2b: a known one-parameter function that became a parameterless method reading that argument from a field
 	// of its receiver (`findResultKeys(dn.results)` -> `dn.resultKeys()`) is given its known form again
 	currentOverlay = cn.Overlay
-	for _, compute := range []func([]*packages.Package) (map[string][]renameEdit, []string){computeReceiverFieldBacks, computeFieldsToReceiverBacks} {
+	for _, compute := range []func([]*packages.Package) (map[string][]renameEdit, []string){computeReceiverFieldBacks, computeFieldsToReceiverBacks, computeStructParamBacks} {
 		edits, notes := compute(pkgs)
 		if len(edits) == 0 || reload == nil {
 			continue
@@ -2691,6 +2691,386 @@ func computeFieldsToReceiverBacks(pkgs []*packages.Package) (map[string][]rename
 				edits[e.file] = append(edits[e.file], e)
 			}
 			notes = append(notes, fmt.Sprintf("function %s is the known method %s with the receiver unbundled into %d of its fields: declaration and %d call(s) rewritten to the known form", u, m, len(extra), handled))
+		}
+	}
+	return edits, notes
+}
+
+// computeStructParamBacks: a known function kept its name but some of its parameters were bundled into ONE parameter
+// of a new struct type of the package (`isAcyclic(g, u, info, path)` -> `isAcyclic(search, u, path)` with
+// `type cycleSearch struct{ g Graph; info cycleInfo }`). The known parameter types are pairwise distinct and equal,
+// as a set, the remaining parameter types plus the field types. The declaration gets its known parameters back
+// (restored ones named after the fields), `sp.f` becomes `f`, an unpacking statement `f1, f2 := sp.f1, sp.f2` is
+// dropped, the struct parameter may otherwise only be handed on in a recursive call, and no field name is declared
+// anywhere else in the body. Every call gets the fields of its (plain) struct argument, or the elements of a struct
+// literal, as separate arguments; all arguments must be plain expressions.
+func computeStructParamBacks(pkgs []*packages.Package) (map[string][]renameEdit, []string) {
+	edits := map[string][]renameEdit{}
+	var notes []string
+	q := func(p *types.Package) string { return p.Path() }
+	for _, pk := range pkgs {
+		if !analysedPkg(pk.PkgPath) {
+			continue
+		}
+		prefix := strings.ReplaceAll(pk.PkgPath, ModPath, "dig")
+		local := func(t types.Type) string {
+			return types.TypeString(t, func(p *types.Package) string {
+				if p == pk.Types {
+					return ""
+				}
+				return p.Name()
+			})
+		}
+		for _, f := range pk.Syntax {
+			for _, d := range f.Decls {
+				fd, ok := d.(*ast.FuncDecl)
+				if !ok || fd.Body == nil {
+					continue
+				}
+				o, ok := pk.TypesInfo.Defs[fd.Name].(*types.Func)
+				if !ok {
+					continue
+				}
+				n := shortFuncName(o)
+				ks, known := knownFuncs[n]
+				if !known || knownPkgOf(n) != prefix || ks == SigKey(o) {
+					continue
+				}
+				i := strings.Index(ks, " -> ")
+				cs := SigKey(o)
+				j := strings.Index(cs, " -> ")
+				if i < 2 || j < 2 || ks[i:] != cs[j:] || strings.Contains(ks[:i], "...") || strings.Contains(cs[:j], "...") {
+					continue
+				}
+				kp := splitTop(ks[1 : i-1])
+				sig := o.Type().(*types.Signature)
+				off := 0
+				if sig.Recv() != nil {
+					off = 1
+					if kp[0] != types.TypeString(sig.Recv().Type(), q) {
+						continue
+					}
+				}
+				distinct := map[string]bool{}
+				okD := true
+				for _, t := range kp {
+					if distinct[t] {
+						okD = false
+					}
+					distinct[t] = true
+				}
+				if !okD {
+					continue
+				}
+				// flattened current parameters
+				type fl struct {
+					name string
+					obj  types.Object
+					typ  string
+				}
+				var flat []fl
+				for _, pf := range fd.Type.Params.List {
+					for _, nm := range pf.Names {
+						if ob := pk.TypesInfo.Defs[nm]; ob != nil {
+							flat = append(flat, fl{nm.Name, ob, types.TypeString(ob.Type(), q)})
+						}
+					}
+				}
+				if len(flat) != sig.Params().Len() {
+					continue
+				}
+				sidx := -1
+				var st *types.Struct
+				for b, p := range flat {
+					nt, isNamed := p.obj.Type().(*types.Named)
+					if !isNamed || nt.Obj().Pkg() != pk.Types {
+						continue
+					}
+					if _, isKnown := knownTypes[prefix+"."+nt.Obj().Name()]; isKnown {
+						continue
+					}
+					if s2, isStruct := nt.Underlying().(*types.Struct); isStruct && !distinct[p.typ] {
+						if sidx >= 0 {
+							sidx = -2
+							break
+						}
+						sidx, st = b, s2
+					}
+				}
+				if sidx < 0 || st == nil || st.NumFields() == 0 {
+					continue
+				}
+				fieldOf := map[string]*types.Var{}
+				okF := true
+				for k := 0; k < st.NumFields(); k++ {
+					t := types.TypeString(st.Field(k).Type(), q)
+					if fieldOf[t] != nil || !distinct[t] || st.Field(k).Name() == "_" {
+						okF = false
+					}
+					fieldOf[t] = st.Field(k)
+				}
+				curOf := map[string]int{}
+				for b, p := range flat {
+					if b == sidx {
+						continue
+					}
+					if _, dup := curOf[p.typ]; dup || fieldOf[p.typ] != nil || !distinct[p.typ] {
+						okF = false
+					}
+					curOf[p.typ] = b
+				}
+				if !okF || len(curOf)+len(fieldOf) != len(kp)-off {
+					continue
+				}
+				sp := flat[sidx].obj
+				// uses of the struct parameter in the body
+				var es []renameEdit
+				file := pk.Fset.Position(fd.Pos()).Filename
+				fsrc, err := os.ReadFile(file)
+				if b, ok := currentOverlay[file]; ok {
+					fsrc, err = b, nil
+				}
+				if err != nil {
+					continue
+				}
+				ftext := func(nd ast.Node) string {
+					return string(fsrc[pk.Fset.Position(nd.Pos()).Offset:pk.Fset.Position(nd.End()).Offset])
+				}
+				fieldNames := map[string]bool{}
+				for _, fv := range fieldOf {
+					fieldNames[fv.Name()] = true
+				}
+				okBody := true
+				dropped := map[ast.Node]bool{}
+				selOf := map[*ast.Ident]*ast.SelectorExpr{}
+				argOfSelf := map[*ast.Ident]bool{}
+				ast.Inspect(fd.Body, func(nd ast.Node) bool {
+					switch x := nd.(type) {
+					case *ast.SelectorExpr:
+						if id, ok := x.X.(*ast.Ident); ok {
+							selOf[id] = x
+						}
+					case *ast.CallExpr:
+						if id, ok := x.Fun.(*ast.Ident); ok && pk.TypesInfo.Uses[id] == types.Object(o) {
+							for _, a := range x.Args {
+								if aid, ok := a.(*ast.Ident); ok && pk.TypesInfo.Uses[aid] == sp {
+									argOfSelf[aid] = true
+								}
+							}
+						}
+					case *ast.AssignStmt:
+						if x.Tok == token.DEFINE && len(x.Lhs) == len(x.Rhs) {
+							all := true
+							for k := range x.Lhs {
+								l, ok1 := x.Lhs[k].(*ast.Ident)
+								r, ok2 := x.Rhs[k].(*ast.SelectorExpr)
+								if !ok1 || !ok2 {
+									all = false
+									break
+								}
+								rid, ok3 := r.X.(*ast.Ident)
+								if !ok3 || pk.TypesInfo.Uses[rid] != sp || l.Name != r.Sel.Name {
+									all = false
+								}
+							}
+							if all {
+								dropped[x] = true
+							}
+						}
+					}
+					return true
+				})
+				for st2 := range dropped {
+					es = append(es, renameEdit{file: file, off: pk.Fset.Position(st2.Pos()).Offset, end: pk.Fset.Position(st2.End()).Offset, text: ""})
+				}
+				inDropped := func(nd ast.Node) bool {
+					for st2 := range dropped {
+						if nd.Pos() >= st2.Pos() && nd.End() <= st2.End() {
+							return true
+						}
+					}
+					return false
+				}
+				ast.Inspect(fd.Body, func(nd ast.Node) bool {
+					id, ok := nd.(*ast.Ident)
+					if !ok {
+						return true
+					}
+					if def := pk.TypesInfo.Defs[id]; def != nil && fieldNames[id.Name] && !inDropped(id) {
+						okBody = false // a local of the same name would capture the restored parameter
+					}
+					if pk.TypesInfo.Uses[id] != sp || inDropped(id) {
+						return true
+					}
+					if se := selOf[id]; se != nil {
+						if _, isField := pk.TypesInfo.Uses[se.Sel].(*types.Var); isField {
+							es = append(es, renameEdit{file: file, off: pk.Fset.Position(se.Pos()).Offset, end: pk.Fset.Position(se.End()).Offset, text: se.Sel.Name})
+							return true
+						}
+					}
+					if !argOfSelf[id] {
+						okBody = false
+					}
+					return true
+				})
+				if !okBody {
+					continue
+				}
+				// header in known order
+				var hdr strings.Builder
+				hdr.WriteString("(")
+				for a := off; a < len(kp); a++ {
+					if a > off {
+						hdr.WriteString(", ")
+					}
+					if b, ok := curOf[kp[a]]; ok {
+						hdr.WriteString(flat[b].name + " " + local(flat[b].obj.Type()))
+					} else {
+						fv := fieldOf[kp[a]]
+						hdr.WriteString(fv.Name() + " " + local(fv.Type()))
+					}
+				}
+				hdr.WriteString(")")
+				es = append(es, renameEdit{file: file, off: pk.Fset.Position(fd.Type.Params.Pos()).Offset, end: pk.Fset.Position(fd.Type.Params.End()).Offset, text: hdr.String()})
+				// calls
+				okCalls := true
+				for _, p2 := range pkgs {
+					if p2 != pk {
+						for _, ob := range p2.TypesInfo.Uses {
+							if ob == types.Object(o) {
+								okCalls = false
+							}
+						}
+					}
+				}
+				nUses := 0
+				for _, ob := range pk.TypesInfo.Uses {
+					if ob == types.Object(o) {
+						nUses++
+					}
+				}
+				handled := 0
+				for _, f2 := range pk.Syntax {
+					f2name := pk.Fset.Position(f2.Pos()).Filename
+					f2src, err := os.ReadFile(f2name)
+					if b, ok := currentOverlay[f2name]; ok {
+						f2src, err = b, nil
+					}
+					if err != nil {
+						okCalls = false
+						break
+					}
+					t2 := func(nd ast.Node) string {
+						return string(f2src[pk.Fset.Position(nd.Pos()).Offset:pk.Fset.Position(nd.End()).Offset])
+					}
+					ast.Inspect(f2, func(nd ast.Node) bool {
+						call, ok := nd.(*ast.CallExpr)
+						if !ok {
+							return true
+						}
+						var fun *ast.Ident
+						recvText := ""
+						switch x := call.Fun.(type) {
+						case *ast.Ident:
+							fun = x
+						case *ast.SelectorExpr:
+							fun = x.Sel
+							recvText = t2(x.X) + "."
+						}
+						if fun == nil || pk.TypesInfo.Uses[fun] != types.Object(o) {
+							return true
+						}
+						handled++
+						if len(call.Args) != len(flat) || call.Ellipsis.IsValid() {
+							okCalls = false
+							return true
+						}
+						fieldArg := map[string]string{}
+						sa := call.Args[sidx]
+						switch x := sa.(type) {
+						case *ast.CompositeLit:
+							for k, el := range x.Elts {
+								if kv, ok := el.(*ast.KeyValueExpr); ok {
+									if kid, ok := kv.Key.(*ast.Ident); ok && plainExpr(kv.Value) {
+										fieldArg[kid.Name] = t2(kv.Value)
+										continue
+									}
+									okCalls = false
+								} else if k < st.NumFields() && plainExpr(el) {
+									fieldArg[st.Field(k).Name()] = t2(el)
+								} else {
+									okCalls = false
+								}
+							}
+						default:
+							if !plainExpr(sa) {
+								okCalls = false
+								return true
+							}
+							inSelf := false
+							if aid, ok := sa.(*ast.Ident); ok && pk.TypesInfo.Uses[aid] == sp {
+								inSelf = true
+							}
+							for _, fv := range fieldOf {
+								if inSelf {
+									fieldArg[fv.Name()] = fv.Name()
+								} else {
+									fieldArg[fv.Name()] = t2(sa) + "." + fv.Name()
+								}
+							}
+						}
+						for b, a := range call.Args {
+							if b != sidx && !plainExpr(a) {
+								okCalls = false
+							}
+						}
+						if !okCalls {
+							return true
+						}
+						var sb strings.Builder
+						sb.WriteString(recvText + fun.Name + "(")
+						for a := off; a < len(kp); a++ {
+							if a > off {
+								sb.WriteString(", ")
+							}
+							if b, ok := curOf[kp[a]]; ok {
+								sb.WriteString(t2(call.Args[b]))
+							} else {
+								v, have := fieldArg[fieldOf[kp[a]].Name()]
+								if !have {
+									okCalls = false
+								}
+								sb.WriteString(v)
+							}
+						}
+						sb.WriteString(")")
+						es = append(es, renameEdit{file: f2name, off: pk.Fset.Position(call.Pos()).Offset, end: pk.Fset.Position(call.End()).Offset, text: sb.String()})
+						return true
+					})
+				}
+				_ = ftext
+				if !okCalls || handled != nUses || handled == 0 {
+					continue
+				}
+				// nested edits: a call inside the body that hands the struct parameter on contains no selector edit of
+				// its own (the parameter appears there as a bare identifier), but drop any edit lying inside another
+				var keep []renameEdit
+				for a, e := range es {
+					inside := false
+					for b, e2 := range es {
+						if a != b && e.file == e2.file && e.off >= e2.off && e.end <= e2.end && !(e.off == e2.off && e.end == e2.end && a < b) {
+							inside = true
+						}
+					}
+					if !inside {
+						keep = append(keep, e)
+					}
+				}
+				for _, e := range keep {
+					edits[e.file] = append(edits[e.file], e)
+				}
+				notes = append(notes, fmt.Sprintf("%s takes %d of its known parameters bundled in a %s: declaration and %d call(s) rewritten to the known parameter list", n, len(fieldOf), local(flat[sidx].obj.Type()), handled))
+			}
 		}
 	}
 	return edits, notes
